@@ -292,20 +292,24 @@ func exportedTable2() [16][][2]int {
 
 func init() {
 	// c01-table out=MCTable.tla : writes ImplTable (3-D, rows of 6 corner ids) and ImplTable2
-	// (2-D, rows of 4 corner ids); fails (infrastructure) if export and black box disagree.
+	// (2-D, rows of 4 corner ids); rows on which a one-cell run of the real mesher disagrees go to <out>.mismatch.json.
 	register("c01-table", func(a args) {
+		// the exported table is what the specifications reason about; a one-cell run of the real
+		// mesher that does not follow it is reported (a verdict about the code, not an infrastructure error)
+		mismatches := []map[string]any{}
 		e3, b3 := exportedTable3(), blackBoxTable3()
 		for bits := range e3 {
 			if fmt.Sprint(e3[bits]) != fmt.Sprint(b3[bits]) {
-				fatal("marching cubes table row %d: export %v differs from black-box mesher %v", bits, e3[bits], b3[bits])
+				mismatches = append(mismatches, map[string]any{"dim": 3, "row": bits, "export": e3[bits], "mesher": b3[bits]})
 			}
 		}
 		e2, b2 := exportedTable2(), blackBoxTable2()
 		for bits := range e2 {
 			if fmt.Sprint(e2[bits]) != fmt.Sprint(b2[bits]) {
-				fatal("marching squares table row %d: export %v differs from black-box mesher %v", bits, e2[bits], b2[bits])
+				mismatches = append(mismatches, map[string]any{"dim": 2, "row": bits, "export": e2[bits], "mesher": b2[bits]})
 			}
 		}
+		writeJSONFile(a.str("out", "MCTable.tla")+".mismatch.json", mismatches)
 		var sb strings.Builder
 		sb.WriteString("------------------------------- MODULE MCTable -------------------------------\n")
 		sb.WriteString("\\* GENERATED by `drv c01-table` from the code under test; do not edit.\n")
